@@ -207,6 +207,11 @@ class Fn:
         if isinstance(n, ast.Tuple):
             parts = [self.ev(e, env) for e in n.elts]
             return "(" + ", ".join(p[0] for p in parts) + ")", tup(*[p[1] for p in parts])
+        if isinstance(n, ast.Attribute) and n.attr in ("statistic", "pvalue") and isinstance(n.value, ast.Call):
+            b = self.ev(n.value, env)
+            if b[1] == tup(NUM, NUM):   # a SciPy result object read as the pair (statistic, pvalue)
+                return f"({'fst' if n.attr == 'statistic' else 'snd'} {b[0]})", NUM
+            raise Unsupported(f".{n.attr} of {b[1]}")
         if isinstance(n, ast.Attribute):
             src = ast.unparse(n)
             if src == "np.nan":
@@ -267,6 +272,10 @@ class Fn:
         isv = lambda t: isinstance(t, tuple) and t[0] == "vec"
         if True:
             names = o.get("params") or [f"_{i}" for i in range(len(o["ptypes"]))]
+            for k_, want_ in o.get("const_kw", {}).items():   # constant options the declared oracle stands for
+                if k_ not in kw or not isinstance(kw[k_], ast.Constant) or kw[k_].value != want_:
+                    raise Unsupported(f"oracle {f}: option {k_} is not the constant {want_!r}")
+            kw = {k_: v_ for k_, v_ in kw.items() if k_ not in o.get("const_kw", {})}
             given = {}
             for nm, a in zip(names, n.args):
                 given[nm] = a
